@@ -728,7 +728,11 @@ def oracle_c15(res, r, tier, td, info, harvested):
                     check([r.choice(pool) for _ in range(r.choice([3, 4, 5, 8, 13]))], 'tuple')
             # an unknown TLV between known ones: the others decode to what they decode to without it
             if shape[0] in ('22', '12') and pool:
-                unk_types = [t for t in UNKNOWN_TYPES[shape[0]]
+                # (type codes that are unknown HERE but registered with a sibling decoder - the Prefix-SID registries for the
+                # link-state containers and the other way round - and the small numbers 1..8)
+                siblings = sorted((set(info['psid']) | set(info['l3']) | set(info['sidinfo']) | set(range(1, 9))) if shape[0] == '22'
+                                  else set(t for t in info['ls_registered'] if t < 256) | set(range(1, 9)))
+                unk_types = [t for t in list(UNKNOWN_TYPES[shape[0]]) + [x for x in siblings if x not in UNKNOWN_TYPES[shape[0]]]
                              if not (name == 'psid.attr' and t in info['psid']) and not (name == 'bgpls.nlri' and t in info['nlri_known'])
                              and not (name == 'bgpls.descriptors' and 256 <= t <= 265) and not (name == 'bgpls.node_descriptor' and 512 <= t <= 517)
                              and not (shape[0] == '22' and name.startswith('ls.') and t in info['ls_registered'])
